@@ -108,6 +108,8 @@ func errV2(e *Err) error {
 		return &types.ResourceNotFoundException{Message: aws.String(e.Msg)}
 	case Internal:
 		return &types.InternalServerError{Message: aws.String(e.Msg)}
+	case Transport:
+		return fmt.Errorf("%s: injected transport failure: %w", Transport, context.DeadlineExceeded)
 	}
 	return fmt.Errorf("%s: %s", e.Code, e.Msg)
 }
